@@ -351,6 +351,7 @@ impl Future for SendFut<'_> {
             mutated,
         });
         net.ev(EvKind::SendDone, me, to, lid, len, id);
+        crate::hooks::tick_msg_clock(net.msgs.len());
         if wire.is_some() {
             net.inflight[me][to].push_back(id);
             if net.eager {
